@@ -37,11 +37,12 @@ def run(ctx):
     gen = "---- MODULE NamesGen ----\n\\* generated from rtrlib/rtr/rtr.h and rtrlib/rtr_mgr.h by lib/checks/names.py\n" \
           "SocketStates == <<%s>>\nMgrStatuses == <<%s>>\n====\n" % (", ".join('"%s"' % n for n in states), ", ".join('"%s"' % n for n in stats))
     open(os.path.join(vlib.SPEC, "NamesGen.tla"), "w").write(gen)
-    objs = vlib.build_lib(pid, "asan")
-    exe = vlib.build_harness(pid, "asan", ["names_harness.c"], objs)
+    # UBSan is fatal in this build: an index outside the name table is a violation even when the stray read is harmless
+    objs = vlib.build_lib(pid, "asan-assert")
+    exe = vlib.build_harness(pid, "asan-assert", ["names_harness.c"], objs)
     lo, hi = (-3, 40) if tier == "quick" else (-300, 1000)
     trace = os.path.join(wd, "trace.ndjson")
-    rc, out = vlib.sh([exe, str(lo), str(hi)], env=vlib.SAN_ENV, timeout=600)
+    rc, out = vlib.sh([exe, str(lo), str(hi)], env=dict(vlib.SAN_ENV, UBSAN_OPTIONS="halt_on_error=1:print_stacktrace=0"), timeout=600)
     lines = [l for l in out.splitlines() if l.startswith('{"e":"name"')]
     open(trace, "w").write("\n".join(lines) + "\n")
     tc = TraceChecker(ctx, verdict, wd, "Names", "Names.cfg", "OK_C20", timeout=600)
